@@ -89,6 +89,8 @@ class Controller:
         self.timeout = 60.0
         self.grants = 0
         self.expect = set()       # pids started by us that have not said hello yet
+        self.held = set()         # pids that are not granted anything for now (a stalled client, a daemon kept at a point of its run)
+        self.hold_after = {}      # pid -> number of further grants after which it joins `held`
 
     # ------------------------------------------------------------------ utilities
     def _write_clock(self):
@@ -343,12 +345,17 @@ class Controller:
     def step(self):
         """grant one wanting process (per chooser/policy); returns the Proc or None if none wants"""
         self._settle()
-        wanting = [p for p in self.procs.values() if p.state == "want"]
+        wanting = [p for p in self.procs.values() if p.state == "want" and p.pid not in self.held]
         if not wanting:
             return None
         pr = self.chooser(wanting) if self.chooser else wanting[0]
         if pr is None:
             return None
+        if pr.pid in self.hold_after:
+            self.hold_after[pr.pid] -= 1
+            if self.hold_after[pr.pid] <= 0:
+                del self.hold_after[pr.pid]
+                self.held.add(pr.pid)
         decision = self.policy(pr, pr.want) if self.policy else "go"
         self.grants += 1
         pr.state = "run"
@@ -374,16 +381,23 @@ class Controller:
                     progress = True
         return progress
 
-    def run(self, maxsteps=200000):
-        """grant until global quiescence: every live process parked and a re-poll changes nothing"""
+    def run(self, maxsteps=200000, until=None):
+        """grant until global quiescence: every live process parked (or held) and a re-poll changes nothing;
+        until: fn(event) -> bool, evaluated on every event the grants produce: stop as soon as one satisfies it"""
         n = 0
+        seen = len(self.trace)
         while True:
             pr = self.step()
             n += 1
             if n > maxsteps:
                 raise Infra("no quiescence after %d steps" % maxsteps)
+            if until is not None:
+                hit = any(until(e) for e in self.trace[seen:])
+                seen = len(self.trace)
+                if hit:
+                    return n
             if pr is None:
-                if not self.poll_parked() and not any(p.state == "want" for p in self.procs.values()):
+                if not self.poll_parked() and not any(p.state == "want" and p.pid not in self.held for p in self.procs.values()):
                     break
         self._reap()
         pr = self.send_proc()
